@@ -17,7 +17,7 @@ func TestC03(t *testing.T) {
 		core.OpAdd: 4, core.OpRemove: 3, core.OpExchange: 3, core.OpRelExchange: 3, core.OpRelSet: 6,
 		core.OpBatchAdd: 3, core.OpBatchRemove: 2, core.OpBatchExch: 2, core.OpBatchSetRel: 3, core.OpRelExchB: 2,
 		core.OpSet:   2,
-		core.OpQuery: 30, core.OpRegister: 3, core.OpUnregister: 1, "useRegistered": 30,
+		core.OpQuery: 30, core.OpRegister: 6, core.OpUnregister: 1, "useRegistered": 40,
 	}
 	runSimProp(t, &simProp{
 		ID: "C03",
@@ -25,11 +25,16 @@ func TestC03(t *testing.T) {
 			Prop:   "C03",
 			Owned:  core.Own(core.CatScan, core.CatPanicQuery, core.CatBatchQuery),
 			Verify: core.FullVerify,
+
+			ScanRegistered: true,
 		},
 		Mix:      mix,
 		MaxPlain: 5, MaxRel: 3,
-		Setup: func(rt *rapid.T, sim *core.Sim, g *core.Gen) { g.DeadFilterTargets = true },
-		Rule:  "relation-heavy world histories (so that multi-table nodes, empty, retired and recycled tables exist) interleaved with queries: generated filter (mask/without/exclusive/any/noneof/anynot, and/or/xor/not nesting <= 3, relation filters with alive/dead/zero targets, plain or registered) and a generated script of Count, EntityAt(i), EntityAt(all i), Next, Step(k) with k from 1 to beyond the end, Close; oracle: a pure-Next pass over an identical query gives the reference order; the visited set must equal the model's matching set (relation-less entities under a top-level relation filter: may), every entity once; Count == visited; EntityAt(i) == i-th visited; every Next/Step lands on the entity at the same ordinal and returns false exactly past the end; at each position Entity/Has/Get/Mask/Ids/Relation agree with the World's accessors and the model; the Q-variant queries of all batch calls are checked the same way (exactly the affected entities, new components accessible); non-trivial = the result spans >= 2 tables, or a Step was executed on a non-empty result",
+		Setup: func(rt *rapid.T, sim *core.Sim, g *core.Gen) {
+			g.DeadFilterTargets = true
+			g.TargetRemovalPct = 40
+		},
+		Rule: "relation-heavy world histories (so that multi-table nodes, empty, retired and recycled tables exist) interleaved with queries: generated filter (mask/without/exclusive/any/noneof/anynot, and/or/xor/not nesting <= 3, relation filters with alive/dead/zero targets, plain or registered) and a generated script of Count, EntityAt(i), EntityAt(all i), Next, Step(k) with k from 1 to beyond the end, Close; oracle: a pure-Next pass over an identical query gives the reference order; the visited set must equal the model's matching set (relation-less entities under a top-level relation filter: may), every entity once; Count == visited; EntityAt(i) == i-th visited; every Next/Step lands on the entity at the same ordinal and returns false exactly past the end; at each position Entity/Has/Get/Mask/Ids/Relation agree with the World's accessors and the model; the Q-variant queries of all batch calls are checked the same way (exactly the affected entities, new components accessible); non-trivial = the result spans >= 2 tables, or a Step was executed on a non-empty result",
 		Observe: func(tr *tracker, op *core.Op) {
 			f := tr.sim.Flags
 			if f["query.tables"] >= 2 {
